@@ -30,12 +30,14 @@ class Bindings(object):
         self.variables = {'xa': 4, 'yb': -6, 'zed': 0.5, 'width': 12, 'rate_pct': 2.5, 'n_items': 9, 'neg_half': -0.5, 'foo': 5, 'lst': [1, 2, [3, 4]], 'txt': 'a,b'}
         self.functions = {'CF': ('len',), 'BOOM': ('raise', 'ValueError'), 'SYN': ('raise', 'SyntaxError'), 'ERRR': ('raise-xl',), 'INNER': ('nested', '10*2'), 'TWICE': ('twice',)}
         self.listeners = [('callCellValue', 'cells'), ('callRangeValue', 'range')]
+        self.state = {'cell_offset': 0, 'range_value': [[1, 2], [3, 4]]}       # host data the listeners read; histories change it
 
     def copy(self):
         b = Bindings()
         b.variables = dict(self.variables)
         b.functions = dict(self.functions)
         b.listeners = list(self.listeners)
+        b.state = dict(self.state)
         return b
 
 
@@ -70,17 +72,18 @@ def make_function(spec):
     raise ValueError(kind)
 
 
-def make_listener(kind):
+def make_listener(kind, state=None):
+    state = state if state is not None else {'cell_offset': 0, 'range_value': [[1, 2], [3, 4]]}
     if kind == 'cells':
         def l(cell, setter):
             lab = cell.label.replace('$', '')
             if lab in G.CELLS:
-                setter(G.CELLS[lab])
+                setter(G.CELLS[lab] + state['cell_offset'])
             else:
-                setter((cell.row.index % 97) * 10 + cell.col.index % 7 + 1)
+                setter((cell.row.index % 97) * 10 + cell.col.index % 7 + 1 + state['cell_offset'])
         return l
     if kind == 'range':
-        return lambda a, b, s: s([[1, 2], [3, 4]])
+        return lambda a, b, s: s(state['range_value'])
     if kind == 'cells-raise':
         def l(cell, setter):
             if cell.col.index > 3:
@@ -103,7 +106,7 @@ def build(b, debug):
     for n, s in b.functions.items():
         p.set_function(n, make_function(s))
     for ev, kind in b.listeners:
-        p.on(ev, make_listener(kind))
+        p.on(ev, make_listener(kind, b.state))
     return p
 
 
@@ -128,7 +131,7 @@ class Check(BaseCheck):
         q = tier == 'quick'
         specs = [{'campaign': 'sentinels'}]
         for i in range(16):
-            specs.append({'campaign': 'histories', 'seed': seed, 'n': 60 if q else 2500, 'i': i, 'maxlen': 60 if i % 2 else 200})
+            specs.append({'campaign': 'histories', 'seed': seed, 'n': 80 if q else 2500, 'i': i, 'maxlen': 60 if i % 2 else 200})
             specs.append({'campaign': 'mutation', 'seed': seed, 'i': i, 'k': 16})
         specs.append({'campaign': 'retention', 'K': 120 if q else 400, 'R': 8 if q else 30, 'seed': seed, 'mix': 'failing'})
         specs.append({'campaign': 'retention', 'K': 120 if q else 400, 'R': 8 if q else 30, 'seed': seed, 'mix': 'succeeding'})
@@ -181,9 +184,18 @@ class Check(BaseCheck):
                 k = rnd.random()
                 if k < 0.62:
                     f = rnd.choice(GARBAGE) if rnd.random() < 0.5 else (C01.mutate(rnd, rnd.choice(corpus), rnd.choice(corpus)) if rnd.random() < 0.5 else rnd.choice(corpus))
-                    aged.parse(f)
+                    r = aged.parse(f)
                     hist.append(('parse', f))
                     rec.count('history_ops.parse')
+                    if (r['error'] is not None and rnd.random() < 0.3) or rnd.random() < 0.05:
+                        # straight after a (failed) evaluation the host's data changes and a reference is read again
+                        b.state['cell_offset'] = rnd.choice([0, 1, 100, -5, 0.5, 7])
+                        b.state['range_value'] = rnd.choice([[[1, 2], [3, 4]], [[9, 8], [7, 6]], [[0, 0], [0, 1]]])
+                        hist.append(('host-data-change', dict(b.state)))
+                        refs = [t for t in C01.tokenize(f) if t[:1].isalpha() and t[-1:].isdigit() and len(t) < 12][:2]
+                        for pf in ['A1*2', 'A1+B2', 'SUM(A1:B2)', 'Z9'][:2] + ['%s+0' % t for t in refs]:
+                            self.compare(rec, aged, b, pf, debug, hist)
+                        rec.count('fault_adjacent_probes')
                 elif k < 0.75:
                     name = rnd.choice(['xa', 'foo', 'newvar', 'lst', 'zed', 'txt'])
                     v = rnd.choice([1, 2.5, 'z', [9, 8], None, True, 100])
@@ -191,17 +203,25 @@ class Check(BaseCheck):
                     aged.set_variable(name, v)
                     hist.append(('set_variable', name, v))
                     rec.count('history_ops.set_variable')
-                elif k < 0.85:
+                elif k < 0.83:
                     name = rnd.choice(['CF', 'TWICE', 'NEWF', 'SUM', 'BOOM'])
                     s = rnd.choice([('len',), ('const', 7), ('twice',), ('raise', 'KeyError'), ('const', [1, 2])])
                     b.functions[name] = s
                     aged.set_function(name, make_function(s))
                     hist.append(('set_function', name, s))
                     rec.count('history_ops.set_function')
-                elif k < 0.93:
+                elif k < 0.89:
+                    # the host's own data changes between evaluations (what the cell/range listeners deliver)
+                    if rnd.random() < 0.7:
+                        b.state['cell_offset'] = rnd.choice([0, 1, 100, -5, 0.5])
+                    else:
+                        b.state['range_value'] = rnd.choice([[[1, 2], [3, 4]], [[9, 8], [7, 6]], [5, 5, 5], [[0, 0], [0, 1]]])
+                    hist.append(('host-data-change', dict(b.state)))
+                    rec.count('history_ops.host_data_change')
+                elif k < 0.94:
                     ev, kind = rnd.choice([('callCellValue', 'cells-raise'), ('callVariable', 'var-override'), ('callFunction', 'noop'), ('callCellValue', 'noop'), ('callRangeValue', 'noop')])
                     b.listeners.append((ev, kind))
-                    aged.on(ev, make_listener(kind))
+                    aged.on(ev, make_listener(kind, b.state))
                     hist.append(('on', ev, kind))
                     rec.count('history_ops.on')
                 else:
@@ -387,6 +407,14 @@ class Check(BaseCheck):
             b.variables[name] = v2
             hist.append(('set_variable', name, v2))
             self.compare(rec, aged, b, f, False, hist)
+        for bad in ('A1+NOSUCH(B2)', 'A1+', 'A1+#N/A', 'A1+BOOM(B2)', 'SUM(A1:B2)+BOOM()', 'Z9&SYN(1)'):
+            aged.parse(bad)
+            hist.append(('parse', bad))
+            b.state['cell_offset'] += 7
+            b.state['range_value'] = [[b.state['cell_offset'], 1], [2, 3]]
+            hist.append(('host-data-change', dict(b.state)))
+            for f in ('A1*2', 'A1+B2', 'SUM(A1:B2)', 'Z9', 'MAX(A1:B2)+A1'):
+                self.compare(rec, aged, b, f, False, hist)
         b.functions['CF'] = ('const', 99)
         aged.parse('CF(1)')
         aged.set_function('CF', make_function(('const', 99)))
